@@ -37,6 +37,9 @@ func genC20TC(g *Gen) error {
 		{"lib/binaryfilterfunc/functions.go", "CombineConditionWithAnd", "tcCombineConditionWithAnd"},
 		{"engine/hybrid_index_reader.go", "initKeyCondition", "tcInitKeyCondition"},
 		{"lib/record/sort.go", "SortData.Init", "tcSortDataInit"},
+		{"engine/index/sparseindex/field.go", "FieldRef.Less", "fieldRefLess"},
+		{"engine/index/sparseindex/field.go", "FieldRef.Equals", "fieldRefEquals"},
+		{"engine/index/sparseindex/field.go", "FieldRef.IsNull", "fieldRefIsNull"},
 		{"engine/index/sparseindex/primary_index.go", "PKIndexWriterImpl.buildData", "pkBuildData"},
 		{"engine/index/sparseindex/primary_index.go", "PKIndexWriterImpl.generateColumn", "pkGenerateColumn"},
 		{"engine/index/sparseindex/primary_index.go", "PKIndexWriterImpl.buildFragment", "pkBuildFragment"},
